@@ -322,6 +322,40 @@ var textMuts = []textMut{
 	{"receiver-method-return-type", `{ return p.Name }`, `{ return p.X }`},
 	{"variadic-range-type", `base += x`, `base += "x"`},
 	{"unused-result-assign", `n += copy(zs, xs)`, `n += close(ch)`},
+	// around the findings repaired in the third round (F12-3, F12-7, F12-12, F12-14, F12-16): same shapes, more variants
+	{"no-value-method-as-operand", `n += copy(zs, xs)`, `n += pp.Move(3)`},
+	{"multi-value-as-operand", `n += copy(zs, xs)`, `n += pair()`},
+	{"multi-value-argument-type", `total += sum(2, 3, 4)`, `total += sum(pair())`},
+	{"no-value-call-in-condition", `okc := n > 0`, `okc := n > 0 && pp.Move(1)`},
+	{"assignment-count-values-call", `c, d = 2, "y"`, `c, d = sum(1)`},
+	{"define-count-values", `c, d := 1, "x"`, `c, d := 1`},
+	{"no-value-call-assigned", `ip := &n`, `ip := &n; nv := pp.Move(1); _ = nv`},
+	{"logical-operand-type", `okc := n > 0`, `okc := n > 0 && n`},
+	{"logical-operand-string", `okc := n > 0`, `okc := "a" || n > 0`},
+	{"logical-operands-mismatched-bool-types", `okc := n > 0`, `type myb bool; var mb myb; okd := n > 0; okc := mb && okd`},
+	{"logical-comparison-with-defined-bool-assigned-to-bool", `okc := n > 0`, `type myb bool; var mb myb; var okc bool = n > 0 && mb`},
+	{"send-value-type", "\tch <- n\n", "\tch <- \"n\"\n"},
+	{"send-on-receive-only", "\tch <- n\n", "\tvar rch <-chan int = ch; rch <- n\n"},
+	{"send-non-channel", "\tch <- n\n", "\txs <- n\n"},
+	{"range-non-iterable-pointer-to-struct", `for i, x := range xs {`, `for i, x := range pp {`},
+	{"range-non-iterable-function", `for i, x := range xs {`, `for i, x := range pair {`},
+	{"switch-case-not-representable", `case 2, 3:`, `case 2, 1.5:`},
+	{"switch-case-nil", `case 2, 3:`, `case 2, nil:`},
+	{"switch-duplicate-case-across-clauses", `case 2, 3:`, `case 2, 3, 3:`},
+	{"missing-method-pointer-receiver-conversion", `_ = s.Norm()`, `_ = mover(q)`},
+	{"missing-method-pointer-receiver-assign-later", `mv.Move(2)`, `mv = q`},
+	{"typeswitch-impossible-case-pointer", "\tcase sq:\n\t\t_ = a3", "\tcase *pt:\n\t\t_ = a3"},
+	{"typeswitch-duplicate-case", "\tcase sq:\n\t\t_ = a3", "\tcase sq, sq:\n\t\t_ = a3"},
+	{"typeswitch-impossible-case-basic", "\tcase sq:\n\t\t_ = a3", "\tcase int:\n\t\t_ = a3"},
+	{"index-non-indexable-struct", `np.X = p.X`, `np.X = p[0]`},
+	{"index-non-indexable-pointer", `np.X = p.X`, `np.X = ip[0]`},
+	{"constant-expression-overflow-decl", `const k8 int8 = 100`, `const k8 int8 = 100; var k9 int8 = 100 + 100; _ = k9`},
+	{"constant-expression-overflow-assign", `_ = k8`, `_ = k8; var k9 int8; k9 = 100 + 100; _ = k9`},
+	{"constant-expression-overflow-argument", `pp.Move(1)`, `pp.Move(1 << 70)`},
+	{"constant-return-overflow", `func (p point) Norm() int       { return p.X*p.X + p.Y*p.Y }`, `func (p point) Norm() int       { return 1 << 70 }`},
+	{"nil-to-basic-field", `np.X = p.X`, `np.X = nil`},
+	{"boolean-literal-to-int-field", `np.X = p.X`, `np.X = true`},
+	{"constant-to-nonempty-interface", `var s shape = q`, `var s shape = 1`},
 }
 
 func withPlaceholders(s string) string {
